@@ -30,6 +30,7 @@ run() { # prop diff origin name
   echo "$prop $name $origin $res"
 }
 for d in /verif/mutants/*/; do
+  [ -n "$SWEEP_SEEDED_ONLY" ] && break
   prop=$(basename $d)
   for f in $d*.diff; do [ -f "$f" ] && run $prop $f "own mutant" $(basename $f .diff); done
 done
